@@ -144,9 +144,11 @@ def drive(ctx):
         v = rnd.choice(vals)
         ctx.emit("format", {"items": items, "locale": rnd.choice(locs) if k % 2 else "en", "method": "format", "named": ""}, [v])
     # named formats
-    for v in ctx.mine(vals):
+    for (vi, v) in enumerate(ctx.mine(vals)):
         for m, (name, fmt) in NAMED.items():
             ctx.emit("format", {"items": tokenize(fmt), "locale": "en", "method": m, "named": name}, [v])
+            if vi % 3 == 0:       # with another process-wide default locale in force
+                ctx.emit("format", {"items": tokenize(fmt), "locale": "en", "method": m, "named": name, "proc_locale": ("fr", "ru", "de")[vi % 3]}, [v])
     # localized names: every locale x 12 months x 7 weekdays
     for loc in ctx.mine(locs):
         for month in range(1, 13):
@@ -205,6 +207,8 @@ def drive(ctx):
                 continue
             ctx.emit("from_format", {"items": items, "locale": "en", "kind": "roundtrip", "now": [2020, 6, 15, 12, 0, 0, 0]}, [v])
             ctx.emit("from_format", {"items": items, "locale": "en", "kind": "mismatch", "mutate": rnd.randrange(40),
+                                     "now": [2020, 6, 15, 12, 0, 0, 0]}, [v])
+            ctx.emit("from_format", {"items": items, "locale": "en", "kind": "mismatch", "mutate": (-1, -2, -3)[ci % 3],
                                      "now": [2020, 6, 15, 12, 0, 0, 0]}, [v])
         ctx.emit("from_format", {"items": [tok("HH"), lit(":"), tok("mm"), lit(":"), tok("ss")], "locale": "en", "kind": "partial",
                                  "now": [2020 + n % 7, 1 + n % 12, 1 + n % 28, 12, 0, 0, 0]}, [v])
